@@ -2,11 +2,13 @@
 //! tree) on generated operations and prints one line per operation:  `<op line> => <canonical output>`.
 //! The Lean driver is fed the `<op line>` part and must print the same `<canonical output>`.
 mod consts;
+mod fam_curve;
 mod fam_fx;
 mod fam_panic;
 mod mon;
 mod mon_c15;
 mod rng;
+mod stubs;
 
 use rng::Rng;
 
@@ -21,6 +23,9 @@ pub fn errcode(e: anchor_lang::error::Error) -> u32 {
 }
 
 fn main() {
+    // panics of the code under test are outcomes, not crashes: keep them quiet
+    std::panic::set_hook(Box::new(|_| {}));
+    stubs::install();
     let args: Vec<String> = std::env::args().collect();
     if args.len() < 2 {
         eprintln!("usage: mfi-harness dump-consts | gen <family> <seed> <n>");
@@ -36,6 +41,7 @@ fn main() {
             let mut out: Vec<String> = Vec::new();
             match fam {
                 "fx" => fam_fx::gen(&mut rng, n, &mut out),
+                "curve" => fam_curve::gen(&mut rng, n, &mut out),
                 "panic" => fam_panic::gen(&mut rng, n, &mut out),
                 _ => {
                     eprintln!("unknown family {}", fam);
@@ -46,7 +52,7 @@ fn main() {
             let stdout = std::io::stdout();
             let mut w = std::io::BufWriter::new(stdout.lock());
             for l in out {
-                writeln!(w, "{}", l).unwrap();
+                writeln!(w, "@{}", l).unwrap();
             }
         }
         "monitor" => {
